@@ -62,6 +62,9 @@ def transpile(src: str, timeout_s: float = 5.0) -> Transpiled:
         except _Timeout:
             return Transpiled("timeout", error="transpile exceeded %.1fs" % timeout_s, wall=time.time() - t0)
         except ValueError as exc:
+            if os.environ.get("VERIF_REJECT_LOG"):  # developer aid: which generated scripts are rejected, and why
+                with open(os.environ["VERIF_REJECT_LOG"], "a") as fh:
+                    fh.write(str(exc)[:120].replace("\n", " ") + "\n")
             return Transpiled("reject", error=str(exc)[:300], error_type=type(exc).__name__, wall=time.time() - t0)
         except SyntaxError as exc:
             return Transpiled("syntax", error=str(exc)[:300], error_type="SyntaxError", wall=time.time() - t0)
